@@ -219,31 +219,108 @@ class OrderedSet(set):
         return iter(self._order)
 
 
-def order_inspectors(wrapper, perm_rng_or_list):
-    """Replace wrapper._inspectors by an OrderedSet. Returns list of names in
-    iteration order, or None when the seam is unavailable."""
-    s = getattr(wrapper, '_inspectors', None)
-    if not isinstance(s, (set, frozenset)):
+def _is_inspector(x):
+    return isinstance(x, fi().FileInspector)
+
+
+def _unwrap(elem):
+    """An element of the wrapper's inspector collection: the inspector
+    itself, or a small record that holds one."""
+    if _is_inspector(elem):
+        return elem
+    try:
+        for v in vars(elem).values():
+            if _is_inspector(v):
+                return v
+    except TypeError:
+        pass
+    if isinstance(elem, (tuple, list)):
+        for v in elem:
+            if _is_inspector(v):
+                return v
+    return None
+
+
+def find_inspector_container(wrapper):
+    """(attribute name, container) of the collection in which the wrapper
+    keeps its inspectors - whatever it is called and whatever it is (set,
+    list, tuple, dict of name -> inspector, collection of records)."""
+    best = None
+    try:
+        items = list(vars(wrapper).items())
+    except TypeError:
         return None
+    for name, val in items:
+        if isinstance(val, dict):
+            elems = list(val.values())
+        elif isinstance(val, (set, frozenset, list, tuple)):
+            elems = list(set.__iter__(val) if isinstance(val, OrderedSet)
+                         else val)
+        else:
+            continue
+        if elems and all(_unwrap(e) is not None for e in elems):
+            if best is None or len(elems) > len(best[2]) or \
+                    name == '_inspectors':
+                best = (name, val, elems)
+    return best
+
+
+def order_inspectors(wrapper, perm_rng_or_list):
+    """Give the wrapper's inspector collection a seed-chosen iteration
+    order. Returns list of names in iteration order, or None when the seam is
+    unavailable (then the shipped order is used)."""
+    found = find_inspector_container(wrapper)
+    if found is None:
+        return None
+    attr, s, elems = found
+    if not isinstance(s, (set, frozenset)):
+        # list / tuple / dict: reorder in the same kind of container
+        key = lambda e: _unwrap(e).NAME     # noqa: E731
+        elems = sorted(elems, key=key)
+        if isinstance(perm_rng_or_list, list):
+            pos = {n: k for k, n in enumerate(perm_rng_or_list)}
+            elems.sort(key=lambda e: pos.get(key(e), len(pos)))
+        else:
+            perm_rng_or_list.shuffle(elems)
+        try:
+            if isinstance(s, dict):
+                keys = {id(v): k for k, v in s.items()}
+                new = {keys[id(e)]: e for e in elems}
+                s.clear()
+                s.update(new)
+            elif isinstance(s, list):
+                s[:] = elems
+            else:
+                setattr(wrapper, attr, tuple(elems))
+        except Exception:
+            return None
+        return [key(e) for e in elems]
+    nm = lambda i: _unwrap(i).NAME      # noqa: E731
     items = sorted(set.__iter__(s) if isinstance(s, OrderedSet) else s,
-                   key=lambda i: i.NAME)
+                   key=nm)
     if isinstance(perm_rng_or_list, list):
-        byname = {i.NAME: i for i in items}
+        byname = {nm(i): i for i in items}
         want = [n for n in perm_rng_or_list if n in byname]
-        rest = [i.NAME for i in items if i.NAME not in want]
+        rest = [nm(i) for i in items if nm(i) not in want]
         order = [byname[n] for n in want + rest]
     else:
         order = items[:]
         perm_rng_or_list.shuffle(order)
     os_ = OrderedSet(order)
     os_.set_order(order)
-    wrapper._inspectors = os_
-    return [i.NAME for i in order]
+    setattr(wrapper, attr, os_)
+    return [nm(i) for i in order]
 
 
 def wrapper_inspectors(wrapper):
-    s = getattr(wrapper, '_inspectors', ())
-    return {i.NAME: i for i in s}
+    found = find_inspector_container(wrapper)
+    if found is None:
+        return {}
+    out = {}
+    for e in found[2]:
+        i = _unwrap(e)
+        out[i.NAME] = i
+    return out
 
 
 def w_format(w):
